@@ -695,7 +695,11 @@ func (w *world) mkClaim(n, h uint64, sp claimSpec, bridger string) crosschaintyp
 			Sender: w.sender, Refund: sp.refund, TokenContracts: []string{token}, Amounts: []sdkmath.Int{sdkmath.NewInt(callAmount)},
 			To: crosschaintypes.ExternalAddrToStr(w.chain, sp.contract.Bytes()), Data: "", Value: sdkmath.OneInt(), Memo: "", TxOrigin: w.sender}
 	case sp.kind == "o":
-		return &crosschaintypes.MsgBridgeTokenClaim{EventNonce: n, BlockHeight: ext, TokenContract: sp.token, Name: "T", Symbol: fmt.Sprintf("S%dX%d", n, h),
+		token := sp.token
+		if h%3 == 2 {
+			token = w.modToken // already registered: the event is observed, its handler fails ("bridge token is exist")
+		}
+		return &crosschaintypes.MsgBridgeTokenClaim{EventNonce: n, BlockHeight: ext, TokenContract: token, Name: "T", Symbol: fmt.Sprintf("S%dX%d", n, h),
 			Decimals: 18, BridgerAddress: bridger, ChainName: w.chain}
 	default:
 		var ms []crosschaintypes.BridgeValidator
@@ -1456,6 +1460,16 @@ func (w *world) randomOp() {
 		if w.rng.Intn(4) == 0 {
 			amt = sdkmath.NewInt(1 + w.rng.Int63n(1000))
 		}
+		// boundary: a slashed oracle returns paying exactly its slash amount (no stake moves), one unit less, one unit more
+		if oa, ok := w.oracleAddr(o); ok {
+			if orc, found := w.k.GetOracle(w.s.Ctx, oa); found && !orc.Online && w.rng.Intn(2) == 0 {
+				if sl := orc.GetSlashAmount(w.k.GetSlashFraction(w.s.Ctx)); sl.IsPositive() {
+					d := int64(w.rng.Intn(3)) - 1
+					amt = sl.AddRaw(d)
+					w.out.Count(fmt.Sprintf("adddel:amount=slash%+d", d))
+				}
+			}
+		}
 		res := w.opAddDelegate(o, amt)
 		w.out.Count("adddel:" + res)
 	case r < 78:
@@ -1549,6 +1563,47 @@ func boundaryStakes(rng *rand.Rand, nO int, lo, hi int64) []int64 {
 		}
 	}
 	return us
+}
+
+// runLongHistory: two oracles observe more than MaxKeepEventSize event nonces one after the other (pruning boundary at
+// lastObserved = MaxKeepEventSize, +1, +2), a third oracle bonds late (absent-key fallback far from 0) and catches up with
+// competing hashes; old parked claims are executed after their attestations were pruned.
+func runLongHistory(t *testing.T, s *hx.Suite, out *hx.Out, rng *rand.Rand, chain string) *world {
+	w := newWorld(t, s, out, rng, chain, 3, 1, 100, "0.1", 30000)
+	w.opGov([]int{1, 2, 3})
+	w.opBond(1, 101, 201, w.units(34))
+	w.opBond(2, 102, 202, w.units(33))
+	total := uint64(crosschaintypes.MaxKeepEventSize) + 4 + uint64(rng.Intn(6))
+	late := 20 + uint64(rng.Intn(60))
+	for n := uint64(1); n <= total; n++ {
+		kind := []string{"p", "c", "o"}[rng.Intn(3)]
+		h := uint64(0)
+		if rng.Intn(8) == 0 {
+			// split vote first: nobody reaches the quorum with h=1, then both agree on h=0
+			w.opClaim(101, 101, n, 1, kind)
+			h = 0
+		}
+		if w.k.GetLastEventNonceByOracle(w.s.Ctx, w.oracles[0]) < n {
+			w.opClaim(101, 101, n, h, kind)
+		}
+		w.opClaim(102, 102, n, h, kind)
+		if n == late {
+			w.opBond(3, 103, 203, w.units(33))
+		}
+		if n > late && rng.Intn(3) == 0 {
+			m := w.k.GetLastEventNonceByOracle(w.s.Ctx, w.oracles[2]) + 1
+			w.opClaim(103, 103, m, uint64(rng.Intn(2)), "p")
+		}
+		if rng.Intn(10) == 0 {
+			m := 1 + uint64(rng.Int63n(int64(n)))
+			w.opExec(w.genTree(m))
+		}
+	}
+	out.Count("scenario:long-history(pruning)")
+	for i := 0; i < 40; i++ {
+		w.randomOp()
+	}
+	return w
 }
 
 func runRandom(t *testing.T, s *hx.Suite, out *hx.Out, rng *rand.Rand, chain string, steps int, nO int) *world {
@@ -1830,6 +1885,7 @@ func TestC01(t *testing.T) {
 	}
 
 	chains := []string{"eth", "bsc", "tron"}
+	runLongHistory(t, hx.NewSuite(t, 1), out, rng, chains[rng.Intn(3)])
 	nSeq := hx.N(300, 2400)
 	for it := 0; it < nSeq; {
 		s := hx.NewSuite(t, 1+rng.Intn(3))
